@@ -221,7 +221,7 @@ def run_scenario(sc, scratch: Path, timeout: float):
     env["PYTHONPATH"] = str(RT) + os.pathsep + str(core.REPO)
     env["JOBLIB_TEMP_FOLDER"] = str(tmp)
     env.pop("PYTHONFAULTHANDLER", None)
-    payload = {k: sc[k] for k in ("n_jobs", "managed", "calls")}
+    payload = {k: sc[k] for k in ("n_jobs", "managed", "calls", "hooks") if k in sc}
     t0 = time.time()
     with open(tmp / "stderr.log", "wb") as err:
         p = subprocess.Popen([PY, "-B", str(RT / "c10_scenario.py"), json.dumps(payload)], env=env, stdout=subprocess.PIPE,
@@ -295,6 +295,24 @@ def gen_scenarios(rng, thorough):
             add("task:" + inst, n_jobs, rng.random() < 0.5,
                 [_fault_call(rng, n_jobs, inst, how), _clean_call(rng, ooo=rng.random() < 0.3)] +
                 ([_clean_call(rng)] if rng.random() < 0.5 else []))
+        # A". a call that dispatches exactly ONE batch, on an executor that spawns its workers during that very submit (the
+        #     first call of the process, and the call right after a fault): the manager thread gets a single wake-up
+        for inst in ("task-start", "mid-task", "arg-unpickle"):
+            n_jobs = rng.choice([2, 3])
+
+            def one(inst=inst):
+                f = dict(instant=inst, how=rng.choice(HOWS_TASK))
+                if inst == "mid-task":
+                    f["delay"] = rng.choice([0.02, 0.1])
+                return dict(n_tasks=1, faults={"0": f}, batch_size=1)
+            add("task:single-batch", n_jobs, rng.random() < 0.5, [one(), one(), _clean_call(rng)])
+        # R. the caller's abort (executor.shutdown -> wakeup of the manager thread) against the manager thread closing the
+        #    wake-up pipe at the end of its tear-down: the caller's write is held until close() of that pipe is entered
+        for managed in (False, True):
+            n_jobs = rng.choice([2, 3])
+            add("race:wakeup-vs-close", n_jobs, managed,
+                [_fault_call(rng, n_jobs, rng.choice(["mid-task", "task-start"]), rng.choice(["SIGKILL", "SIGTERM", "exit"])),
+                 _clean_call(rng), _clean_call(rng)], hooks="wakeup-close")
         # A'. sys.exit() inside the worker: not a death (SystemExit where the hook stands)
         for inst in SYSEXIT_CLASS_OF:
             n_jobs = rng.choice([2, 3])
